@@ -334,6 +334,9 @@ def coq_goal(call, model):
     # the driver reports the faithful machines of Model/Dnf.v (clauses printed without trailing unset cells)
     if op in ("to_dnf", "to_cnf") and isinstance(model, list):
         return "match %s_faithful %s with Ok l => map pv_trim l | _ => [[None]] end = (%s : list pval)" % (op, coq_bdd(call[1]), coq_list(model[1:], coq_pv))
+    # to_optimized_dnf: the step-faithful recursion of Model/OptDnf.v (C10)
+    if op == "to_opt_dnf" and isinstance(model, list):
+        return "match to_optimized_dnf %s with Ok l => map pv_trim l | _ => [[None]] end = (%s : list pval)" % (coq_bdd(call[1]), coq_list(model[1:], coq_pv))
     if op == "clause_valuations":
         if model == "PANIC":
             return "clause_iter %s %s = Panic" % (coq_pv(call[1]), call[2])
@@ -370,7 +373,7 @@ def kernel_crosscheck(steps, limit=60, max_chars=4000):
     if not goals:
         return 0, 0
     lines = ["From Coq Require Import List NArith Bool. Import ListNotations.",
-             "From BddVerif Require Import Model.Bdd Model.Apply Model.Ops Model.Paths Model.Valuation Model.Dnf.", "Open Scope N_scope."]
+             "From BddVerif Require Import Model.Bdd Model.Apply Model.Ops Model.Paths Model.Valuation Model.Dnf Model.OptDnf.", "Open Scope N_scope."]
     for i, g in enumerate(goals):
         lines.append("Goal %s. Proof. vm_compute. reflexivity. Qed." % g)
     d = tempfile.mkdtemp(prefix="xchk", dir=os.path.join(VERIF, ".work"))
